@@ -190,7 +190,9 @@ func ValidateParameter(ctx context.Context, input *RequestValidationInput, param
 				// Next check `parameter.Required && !found` will catch this.
 			case openapi3.ParameterInQuery:
 				q := req.URL.Query()
-				explode := parameter.Explode != nil && *parameter.Explode
+				// form is the default query style and it explodes unless told otherwise,
+				// which is also what the decoder assumes when reading the value back
+				explode := parameter.Explode == nil || *parameter.Explode
 				populateDefaultQueryParameters(q, parameter.Name, value, explode)
 				req.URL.RawQuery = q.Encode()
 			case openapi3.ParameterInHeader:
